@@ -42,7 +42,9 @@ class XSpec:
                 key, value = keyvalue[:i], keyvalue[i + 1 :]
             if key[0] == "_":
                 raise AttributeError("%r not a valid XSpec key" % key)
-            if key in self.__dict__:
+            if key in self.__dict__ or (
+                key.startswith("env:") and key[4:] in self.env
+            ):
                 raise ValueError(f"duplicate key: {key!r} in {string!r}")
             if key.startswith("env:"):
                 self.env[key[4:]] = value
